@@ -16,9 +16,9 @@ def TyWF : Ty → Bool
   | .flt lo hi => (lo < 18446744073709551616 && !fIsNaN lo) && (hi < 18446744073709551616 && !fIsNaN hi)
   | .arr e lo hi => TyWF e && ((minInt ≤ lo && lo ≤ maxInt) && (minInt ≤ hi && hi ≤ maxInt))
   | .var ts => TyWFL ts
-  | .tup ts sz => TyWFL ts && (match sz with
+  | .tup ts sz => (TyWFL ts && (match sz with
       | some (lo, hi) => (minInt ≤ lo && lo ≤ maxInt) && (minInt ≤ hi && hi ≤ maxInt)
-      | none => true)
+      | none => true)) && decide ((ts.length : Int) ≤ maxInt)   -- a Go slice length is an int
   | .opt t => TyWF t
   | .typ t => TyWF t
   | _ => true
@@ -193,7 +193,7 @@ theorem tyEq_refl : ∀ a : Ty, TyWF a = true → tyEq a a = true
       exact ⟨rfl, fun v hv => ⟨v, hv, tyEq_refl_all ts h v hv⟩, fun v hv => ⟨v, hv, tyEq_refl_all ts h v hv⟩⟩
   | .tup ts _, h => by
       simp only [TyWF, Bool.and_eq_true] at h
-      simp [tyEq, tyEqL_refl ts h.1]
+      simp [tyEq, tyEqL_refl ts h.1.1]
   | .opt t, h => by simp only [TyWF] at h; simp [tyEq, tyEq_refl t h]
   | .typ t, h => by simp only [TyWF] at h; simp [tyEq, tyEq_refl t h]
 theorem tyEq_refl_all : ∀ ts : List Ty, TyWFL ts = true → ∀ v ∈ ts, tyEq v v = true
